@@ -17,11 +17,12 @@ META = dict(
                 'mutual exclusion; ids 1..n each once, never more than requested, exactly the requested number once full, one study per name; a trial is reported to the algorithm '
                 'at most once in every state and exactly once iff completed and feasible at quiescence; counters consistent at quiescence; best trial feasible and maximal; '
                 'one pending trial per group and a worker only holds trials of its group; the algorithm is set up at most once however many workers race for the first sample(); '
-                'outside the setup window num_feedbacks = number of reports and num_proposals = number of trials + proposals in flight, and at quiescence num_proposals = number of trials.  The programs are regenerated from the source on every run and the instance obligation is re-checked.'),
+                'outside the setup window num_feedbacks = number of reports and num_proposals = number of trials + proposals in flight, and at quiescence num_proposals = number of trials; every report carries the reward that is (and stays) the final measurement of a completed feasible trial; '
+                'no deadlock (some unfinished worker can always step; lock order registry > study > evolution).  The programs are regenerated from the source on every run and the instance obligation is re-checked.'),
     level_note=('Tie: fail-closed translator + footprint obligation + trace correspondence (final state and program-counter sequence) under a deterministic statement-granular scheduler + direct oracle. '
                 'An exception in the constructor ends the worker (model rule; the discipline requires the algorithm to be set up at every other exit). '
                 'When the translator or the instance obligation stops, an implementation-only search (single-preemption and parking sweeps with distinct rewards, direct oracle) still produces concrete replays, shrunk before they are recorded. '
-                'Not proved: evolution population contents; liveness beyond the reachable-quiescence example.'),
+                'Not proved: evolution population contents; termination under fair schedules (no-deadlock is proved).'),
     rule=('a case is (configuration: threads, num_examples, groups, algorithm kind, early-stopping policy, per-worker scripts; a schedule = the sequence of thread choices '
           'at every scheduling point).  distinct by (configuration, schedule); non-trivial when at least two threads were interleaved inside a critical section or an '
           'API entry (at least one context switch away from a thread that had not finished its current call)'),
